@@ -59,6 +59,10 @@ let handle ws = match ws with
             | "c2s" -> Some (Internal h3_FRAME_UNEXPECTED, 7, [CallPCE])
             | "cms" -> Some (Internal h3_MISSING_SETTINGS, 7, [CallPCE])
             | "cid" -> Some (Internal h3_ID_ERROR, 13, [CallPCE; CallPCE; CallPCE])
+            | "2cs" -> Some (Internal h3_STREAM_CREATION_ERROR, 7, [CallPCE])
+            | "cfe" -> Some (Internal h3_FRAME_ERROR, 7, [CallPCE])
+            | "cpp" -> Some (Internal h3_FRAME_UNEXPECTED, 7, [CallPCE])
+            | "cbi" -> Some (Internal h3_STREAM_CREATION_ERROR, 10, [CallPCE; CallPCE])
             | s -> failwith ("bad derr " ^ s)) in
       let setup = if server then Some ([CallPCE; CallPCE], false)
                   else if full || closing = "goaway" then Some ([CallPCE; CallPCE; CallPCE; CallPCE], true) else None in
@@ -87,18 +91,23 @@ let handle ws = match ws with
         ones (show_dev r.r_d1) (if r.r_woken then 1 else 0) s1 (show_dev r.r_d2) (show_dev r.r_d2s)
         (opt r.r_s2 errs2) (opt r.r_s3 errs3) (show_dev r.r_d4)
         (show_dev r.r_d3) (show_closes r.r_close) in
-      (* specification: the first raise in schedule order is the outcome *)
-      let derr = match own with Some (e, t, _) -> Some (nat_of_int t, e) | None -> None in
-      let s = (match spec_case (nat_of_int k) errs derr sched with
+      (* specification, computed from the case line only (never from the model run, never from the shape of a driver
+         poll): the outcome is the first raise.  Among the stream tasks the first store is the first task scheduled; when
+         the driver can detect an error of its own, WHEN it does so depends on how many statements its poll runs first,
+         which the property does not constrain: both outcomes are admissible (candidates separated by ` ;; `), every
+         report must present the SAME one and close must be that one's code *)
+      let line e =
+        let x = show_cerr (spec_report e) in
+        let xs1 = String.concat "," (List.map (fun kd -> if kd = "dr" then "-" else x) kinds) in
+        let xo l = String.concat "," (List.map (fun o -> match o with None -> "-" | Some _ -> x) l) in
+        Printf.sprintf "ok keys=%s d1=* woken=* s1=%s d2=%s d2s=%s s2=%s s3=%s d4=%s d3=%s close=%s" ones xs1 x x (xo errs2) (xo errs3)
+          x x (match spec_close_code e with Some c -> string_of_n c | None -> "-") in
+      let s = (match spec_case (nat_of_int k) errs None sched with
         | None -> "none"
         | Some e ->
-            let x = show_cerr (spec_report e) in
-            let xs1 = String.concat "," (List.map (fun kd -> if kd = "dr" then "-" else x) kinds) in
-            let xo l = String.concat "," (List.map (fun o -> match o with None -> "-" | Some _ -> x) l) in
-            (* every later driver call, shutdown() included, reports the outcome *)
-            Printf.sprintf "ok keys=%s d1=* woken=* s1=%s d2=%s d2s=%s s2=%s s3=%s d4=%s d3=%s close=%s" ones xs1 x x (xo errs2) (xo errs3)
-              x x
-              (match spec_close_code e with Some c -> string_of_n c | None -> "-")) in
+            (match own with
+             | Some (eo, _, _) when eo <> e -> line e ^ " ;; " ^ line eo
+             | _ -> line e)) in
       m ^ " | " ^ s
   | _ -> "driver-error unknown-case"
 let () = run_lines handle
